@@ -45,6 +45,12 @@ func (g *gen) brk(before bool) int {
 	if !g.p.Breaks || !r.Chance(1, 5) {
 		return 0
 	}
+	return g.brkValue()
+}
+
+// a break value other than auto
+func (g *gen) brkValue() int {
+	r := g.r
 	// indices in BrkNames
 	switch k := r.Intn(12); {
 	case k < 4:
@@ -115,6 +121,23 @@ func (g *gen) node(depth int) *Node {
 		}
 		if len(n.Kids) == 0 {
 			n.Kids = append(n.Kids, g.leaf())
+		}
+		// a break value on the first / last of several children: it belongs to the boundary
+		// between this block and its sibling (the values of all boxes that start / end at a
+		// boundary meet there)
+		if g.p.Breaks && len(n.Kids) >= 2 && r.Chance(1, 2) {
+			wrap := func(i int) *Node {
+				if n.Kids[i].Kind != KBlk {
+					n.Kids[i] = &Node{Kind: KBlk, Kids: []*Node{n.Kids[i]}}
+				}
+				return n.Kids[i]
+			}
+			if r.Chance(2, 3) {
+				wrap(len(n.Kids) - 1).Ba = g.brkValue()
+			} else {
+				wrap(0).Bb = g.brkValue()
+			}
+			g.tags["nested"] = true
 		}
 		if depth+1 > 1 {
 			g.tags["nested"] = true
